@@ -110,6 +110,11 @@ pub fn record_cont(output: &str) {
             prev[3] += r.gen_range(-0.4..0.4);
             prev[5] += r.gen_range(-0.4..0.4);
         }
+        // previous J4 / J6 wound up by whole turns (a multi-turn flange): the same posture, still realising the pose
+        if k % 5 == 1 {
+            prev[3] += 2.0 * PI * r.gen_range(-1..=1) as f64;
+            prev[5] += 2.0 * PI * r.gen_range(-1..=1) as f64;
+        }
         let sens = arm_sensitivity(&p, &q);
         // is another arm branch singular as well? (precondition only; uses the library's own plain inverse)
         let others = robot.kin.inverse(&want.to_na());
